@@ -405,6 +405,8 @@ def correspond(pid, spec, tier, seed):
             stats["kinds"][k] = stats["kinds"].get(k, 0) + 1
             if nontrivial(c, a, tag):
                 stats["distinct"].add(hashlib.sha1(c.encode()).digest()[:10])
+            if c.startswith("clitrace ") and a2 == m2 == "accept":
+                stats["lts_replayed"] = stats.get("lts_replayed", 0) + 1
             if a2 != m2:
                 stats["disagreements"].append({"profile": prof, "index": i, "case": c, "impl": a, "model": m, "tag": tag})
             if i < len(expect) and expect[i].startswith("!"):
@@ -559,6 +561,9 @@ def run_check(pid, tier, seed):
             "distinct_nontrivial": len(stats["distinct"]),
             "rule": spec.get("rule", PROPS.DEFAULT_RULE),
             "traces_validated_against_impl": stats["evaluations"] - len(stats["disagreements"]) - stats["guard_skipped"],
+            # observed runs (real CLI / library run_parallel) replayed as runs of the driver transition
+            # system by the verified checker `traceCheck` (C16 / C17 / C19)
+            "observed_runs_replayed_in_driver_lts": stats.get("lts_replayed", 0),
             "samples": stats["samples"] or [{"note": "no cases"}],
             "profiles": stats["profiles"],
             "outcome_distribution": stats["kinds"],
